@@ -593,6 +593,10 @@ pub struct BuildOut {
     /// Debug text (or PANIC:<hexmsg>) of every level, keyed by batch tag (0 = top)
     pub prints: Vec<(u32, String)>,
     pub handles: Handles,
+    /// recovery mode (C18/C02/C20): a registration that panics is caught, recorded in `errs` as (call index, class), and
+    /// the SAME builder is used for the calls that follow
+    pub recover: bool,
+    pub errs: Vec<(usize, String)>,
 }
 
 fn debug_text(b: &DispatcherBuilder<'static, 'static>) -> String {
@@ -658,7 +662,8 @@ fn build_level(
     #[cfg(feature = "parallel")] pool: Option<&Arc<rayon::ThreadPool>>,
 ) -> Option<DispatcherBuilder<'static, 'static>> {
     let mut b = DispatcherBuilder::new();
-    let ws = regs.len() % 2 == 1;
+    // (the consuming methods lose the builder when they panic: recovery uses the &mut methods only)
+    let ws = regs.len() % 2 == 1 && !out.recover;
     #[cfg(feature = "parallel")]
     if let Some(p) = pool { if ws { via(&mut b, |x| x.with_pool(p.clone())) } else { b.add_pool(p.clone()) } }
     for r in regs {
@@ -679,6 +684,7 @@ fn build_level(
             Reg::Sys { .. } => {
                 let res = catch_unwind(AssertUnwindSafe(|| add_sys(&mut b, r, rec, &mut out.handles, ws)));
                 if let Err(p) = res {
+                    if out.recover { out.errs.push((out.calls, classify(&payload_string(&p)))); out.calls += 1; continue; }
                     out.err = Some(classify(&payload_string(&p)));
                     return None;
                 }
@@ -693,6 +699,7 @@ fn build_level(
                     add_batch(&mut b, ib, *tag, name, deps, *time, *count, *ctl, rec, ws)
                 }));
                 if let Err(p) = res {
+                    if out.recover { out.errs.push((out.calls, classify(&payload_string(&p)))); out.calls += 1; continue; }
                     out.err = Some(classify(&payload_string(&p)));
                     return None;
                 }
@@ -708,9 +715,18 @@ pub fn build(
     regs: &[Reg], rec: &Arc<Recorder>,
     #[cfg(feature = "parallel")] pool: Option<&Arc<rayon::ThreadPool>>,
 ) -> BuildOut {
+    build_mode(regs, rec, #[cfg(feature = "parallel")] pool, false)
+}
+
+pub fn build_mode(
+    regs: &[Reg], rec: &Arc<Recorder>,
+    #[cfg(feature = "parallel")] pool: Option<&Arc<rayon::ThreadPool>>,
+    recover: bool,
+) -> BuildOut {
     let mut out = BuildOut {
         builder: None, calls: 0, err: None, prints: Vec::new(),
         handles: Handles { runs: HashMap::new(), states: HashMap::new() },
+        recover, errs: Vec::new(),
     };
     #[cfg(feature = "parallel")]
     let b = build_level(regs, 0, rec, &mut out, pool);
